@@ -224,3 +224,84 @@ def cell_bound(ret, a, b):
     v0, rho0 = ideal(ret, (x0,))
     V, D, E = cell_key(ret.lin.key(), (Fraction(a), Fraction(b)), {})
     return x0, v0, D, max(E, rho0)
+
+
+def prove_cells(V, run, truth, bound, clause, site, box=None, width=64, min_cells=100, extra_slack=Fraction(0), adapt=None, tag=""):
+    """Certifying direction, generic: for every path of `run` and every cell [a,b] of its parameter box,
+         |actual(x) - f(x)| <= |v(x0) - f(x0)| + max|D - f'| * |x - x0| + E
+       must not exceed bound(a, b) - extra_slack.
+       truth(a, b, x0) -> ((f0lo, f0hi), (dflo, dfhi)) in raw units / dimensionless; bound(a, b) -> Fraction or None (cell excluded).
+       adapt(a) -> cell width to use from a on (optional). Failing cells are searched for a concrete violating argument."""
+    from . import lib
+    ncell = 0
+    worst = None
+    fails = []
+    for p in run.paths:
+        lo, hi = p.state.bounds["p0"]
+        if box is not None:
+            lo, hi = max(lo, box[0]), min(hi, box[1])
+        a = lo
+        while a <= hi:
+            w = adapt(a) if adapt else width
+            b = min(hi, a + w - 1)
+            bd = bound(a, b)
+            if bd is None:
+                a = b + 1
+                continue
+            try:
+                x0, v0, D, E = cell_bound(p.ret, a, b)
+                (f0l, f0h), (dl, dh) = truth(a, b, x0)
+            except Unsupported as e:
+                V.inconc("%s [%s]: idealised expression not available on cell [%d,%d]: %s" % (run.name, run.ctx.config, a, b, e))
+                a = hi + 1
+                break
+            except ZeroDivisionError:
+                fails.append((a, b, p, None, float(bd)))
+                V.oblige(False)
+                a = b + 1
+                continue
+            dmax = max(abs(D[0] - dh), abs(D[1] - dl), abs(D[0] - dl), abs(D[1] - dh))
+            dx = max(x0 - a, b - x0)
+            err = max(abs(v0 - f0l), abs(v0 - f0h)) + dmax * dx + E
+            ok = err + extra_slack <= bd
+            V.oblige(ok)
+            ncell += 1
+            mg = bd - err - extra_slack
+            if worst is None or mg < worst[0]:
+                worst = (mg, a, b, float(err), float(bd))
+            if not ok:
+                fails.append((a, b, p, float(err), float(bd)))
+            a = b + 1
+    info = {"cells": ncell, "tightest_margin": None if worst is None else float(worst[0]),
+            "tightest_cell": None if worst is None else list(worst[1:])}
+    V.cover.setdefault("accuracy", {})[run.name + "/" + run.ctx.config + tag] = info
+    if ncell < min_cells:
+        V.broke("%s [%s]: only %d accuracy cells (expected >= %d)" % (run.name, run.ctx.config, ncell, min_cells))
+    return fails, info
+
+
+def triage_fails(V, run, fails, point_ok, clause, site, limit=40):
+    """point_ok(x, outcome) -> True if the concrete result at x satisfies the clause. A failing cell with a violating point is a
+    VIOLATION (the point is the witness); otherwise the cell stays INCONCLUSIVE."""
+    from . import lib
+    reported = False
+    n_inc = 0
+    for a, b, p, err, bd in fails[:limit]:
+        hit = None
+        xs = range(a, b + 1) if b - a <= 256 else [a + (b - a) * j // 256 for j in range(257)]
+        for x in xs:
+            out = run.conc((x,))
+            if not point_ok(x, out):
+                hit = (x, out)
+                break
+        if hit and not reported:
+            reported = True
+            V.violation(clause, site, "%s(%d) [%s] = %s violates '%s' (cell [%d,%d]: proved error bound %s, allowed %.3f raw units)" % (
+                run.name, hit[0], run.ctx.config, lib.out_str(hit[1]), clause, a, b, "%.3f" % err if err is not None else "n/a", bd),
+                lib.rp(run, (hit[0],), clause))
+        elif not hit:
+            n_inc += 1
+            if n_inc <= 5:
+                V.inconc("%s [%s]: '%s' not proved on cell [%d,%d] (error bound %s, allowed %.3f) and no violating argument in the cell" % (
+                    run.name, run.ctx.config, clause, a, b, "%.3f" % err if err is not None else "n/a", bd))
+    return reported
